@@ -187,6 +187,23 @@ class PandasSchemaBackend(BaseSchemaBackend):
             error_counts=error_counts,
         )
 
+    def can_drop_invalid_rows(self, error_handler: ErrorHandler) -> bool:
+        """Whether every collected error identifies the rows that caused it.
+
+        Errors that cannot be attributed to rows (wrong data type, missing
+        column, a check returning a scalar ``False``, ...) cannot be resolved
+        by dropping rows.
+        """
+        for err in error_handler.schema_errors:
+            failure_cases = err.failure_cases
+            if not (
+                isinstance(failure_cases, pd.DataFrame)
+                and "index" in failure_cases
+                and not failure_cases["index"].isna().any()
+            ):
+                return False
+        return True
+
     def drop_invalid_rows(self, check_obj, error_handler: ErrorHandler):
         """Remove invalid elements in a check obj according to failures in caught by the error handler."""
         errors = error_handler.schema_errors
